@@ -13,6 +13,7 @@ import (
 	"net"
 	"net/http"
 	"path/filepath"
+	"runtime"
 	"strings"
 	"sync"
 	"testing"
@@ -285,6 +286,50 @@ func TestDrv_C18(t *testing.T) {
 		rec := &dialRec{}
 		attack(newStack(rec, order, 50*time.Millisecond, map[string][]string{"dual32.test:80": {"dual44.test:81", "three4.test:82"}}), "http://dual32.test:80/", 1500, 64, nil)
 		runs++
+	}
+	// the cache-refresh goroutine of a positive ttl runs while the attack runs and stops with it
+	{
+		countRefreshers := func() int {
+			buf := make([]byte, 1<<22)
+			buf = buf[:runtime.Stack(buf, true)]
+			n := 0
+			for _, g := range strings.Split(string(buf), "\n\n") {
+				if strings.Contains(g, "DNSCaching") && strings.Contains(g, "lib/attack.go") && !strings.Contains(g, "DialContext") && !strings.Contains(g, "LookupHost") {
+					n++
+				}
+			}
+			return n
+		}
+		before := countRefreshers()
+		dnsMu.Lock()
+		q0 := dnsQueries
+		dnsMu.Unlock()
+		rec := &dialRec{}
+		atk := vegeta.NewAttacker(append(newStack(rec, "dns", 20*time.Millisecond, nil), vegeta.Workers(1), vegeta.MaxWorkers(1))...)
+		tgt := vegeta.NewStaticTargeter(vegeta.Target{Method: "GET", URL: "http://dual32.test:80/"})
+		results := atk.Attack(tgt, vegeta.ConstantPacer{Freq: 200, Per: time.Second}, 0, "refresh")
+		n := 0
+		during := 0
+		for range results {
+			n++
+			if n == 40 { // ~200 ms: about ten refresh periods
+				during = countRefreshers() - before
+				atk.Stop()
+			}
+		}
+		after := -1
+		for i := 0; i < 200; i++ { // the goroutine leaves at its next select; give it time, assert nothing about how long
+			if after = countRefreshers() - before; after == 0 {
+				break
+			}
+			time.Sleep(5 * time.Millisecond)
+		}
+		dnsMu.Lock()
+		q1 := dnsQueries
+		dnsMu.Unlock()
+		runs++
+		tr.Emit("Reset", KV{"mode": "refresh", "sequential": true, "resolved": []KV{}, "mapped": []string{}, "passthru": false, "half": 0})
+		tr.Emit("Refresh", KV{"running_during_attack": during, "running_after_stop": after, "queries_during_attack": q1 - q0})
 	}
 	dnsMu.Lock()
 	q := dnsQueries
